@@ -8,9 +8,15 @@ SPEC = {
         {"name": "TestGRPCGuns", "quick": 64, "thorough": 4000, "shards_quick": 8, "shards_thorough": 16, "timeout": 3000},
         {"name": "TestHTTP2Gun", "quick": 96, "thorough": 6000, "shards_quick": 8, "shards_thorough": 16, "timeout": 3000},
         {"name": "TestHTTP2ScenarioGun", "quick": 96, "thorough": 6000, "shards_quick": 8, "shards_thorough": 16, "timeout": 3000},
+        {"name": "TestConnectProxy", "quick": 160, "thorough": 8000, "shards_quick": 8, "shards_thorough": 16, "timeout": 3000},
+        # sleep-bound (15 s per case, the documented default timeout): the case count per process is fixed inside the test
+        # (vf.Batch: 3 quick / 12 thorough, run concurrently); every case runs the grpc AND the grpc/scenario gun
+        {"name": "TestGRPCDefaultTimeout", "quick": 3, "thorough": 12, "shards_quick": 1, "shards_thorough": 2, "timeout": 3000},
     ],
     "rule": ("rapid-generated response histories of in-process targets: any status, empty and 3 MB bodies, malformed status line / header "
              "line / chunking, binary garbage, early close, TCP reset, stall past the response timeout, body shorter than Content-Length, "
+             "a 200 whose Content-Length announces far more than is delivered before the connection closes (some GB, 2^48..2^62 - sizes no "
+             "process can allocate -, the top of the int64 range), "
              "JSON/HTML the extractors cannot parse, header values (0-20 characters) shorter than the configured substr(), whose one or two "
              "indices are generated: small or beyond the value, counted from the start or (negative) from the end; every history ends with a "
              "well-behaved exchange. Guns: http and connect (1-3 instances, keep-alive on/off; the connect gun half of the time with "
@@ -18,7 +24,10 @@ SPEC = {
              "listener stops listening before its k-th connection (k = 0: nothing listens from the start) and every later connection "
              "is refused, while the port stays reserved; requests that never reached the target must be reported as samples with a net "
              "error and no status. http/scenario with steps carrying each postprocessor "
-             "kind (var/jsonpath, var/xpath, var/header with and without substr, assert/response); three var/xpath steps in four map "
+             "kind (var/jsonpath, var/xpath, var/header with and without substr, assert/response); one step in four whose postprocessors need "
+             "no body (none, var/header, assert/response on status and headers) is a HEAD request, and one misbehaviour in three that "
+             "meets a HEAD step is the legal answer for a huge resource (headers only, Content-Length 2^31..2^63-1): that step must "
+             "succeed and the invocation go on; three var/xpath steps in four map "
              "1-2 generated XPath 1.0 expressions over a catalogue page (plain node-sets, node-sets whose predicates compare an attribute "
              "with a number - alone, positional, negated, and/or-combined, nested in count() or on the parent -, string-function "
              "predicates, scalar count()/boolean()/sum()/number()/concat() and top-level comparisons); a well-behaved target answers such "
@@ -29,7 +38,16 @@ SPEC = {
              "(alerts internal_error / unrecognized_name / protocol_version, or a dropped connection) and answers individual requests "
              "badly (any status, empty / 3 MB body, stream reset before or after the headers, connection killed, stall, body shorter than "
              "Content-Length); one http2 case in twelve meets a TLS target without h2 (the documented fatal condition: the run may stop, "
-             "but only with that message). Pools are built by config.DecodeAndValidate, run by the real "
+             "but only with that message). connect gun behind a scripted CONNECT proxy (TestConnectProxy; 1-2 instances, keep-alive on/off): "
+             "each CONNECT the proxy sees is either tunnelled to the recording target or refused with a non-2xx status (301..599) and an "
+             "error page that is absent, complete, or announced and not delivered (Content-Length 0..70000 with 0..all bytes sent, a "
+             "chunk without the terminating chunk), with or without 'Connection: close', after which the proxy closes the connection or "
+             "keeps it open; the request such a CONNECT was made for must be a failure sample, all others clean 200, and the run must "
+             "not stand still (no new CONNECT / request for 10 s = an instance is blocked). grpc and grpc/scenario guns configured "
+             "WITHOUT `timeout` (TestGRPCDefaultTimeout, both guns in every case, 2-4 calls, 1-2 instances for grpc, assert/response "
+             "on/off for grpc/scenario) against a target of their own that accepts one call and never answers it: the documented default "
+             "request timeout (15 s) must end that call - 504 sample, later calls 200 - and the run must be over 25 s after the target "
+             "received the call. Pools are built by config.DecodeAndValidate, run by the real "
              "engine, samples read from the real phout output. Non-trivial = at least one misbehaving exchange followed by a good one; "
              "distinct = hash of the case."),
     "floors": {"TestScenarioGun/post_header_substr": 0.15, "TestScenarioGun/post_jsonpath": 0.15, "TestScenarioGun/post_xpath": 0.15,
@@ -46,7 +64,19 @@ SPEC = {
                "TestHTTPGun/connect_gun_refused": 0.025, "TestHTTPGun/connect_ssl_refused": 0.0094,
                "TestScenarioGun/xpath_expr_nodeset_numeric": 0.12, "TestScenarioGun/xpath_expr_scalar": 0.012,
                "TestScenarioGun/xpath_expr_plain": 0.027, "TestScenarioGun/xpath_nodeset_numeric_on_non_numeric_page": 0.03,
-               "TestScenarioGun/xpath_nodeset_numeric_on_numeric_page": 0.012},
+               "TestScenarioGun/xpath_nodeset_numeric_on_numeric_page": 0.012,
+               "TestScenarioGun/lying_length_postprocessed": 0.05, "TestScenarioGun/lying_length_unallocatable_postprocessed": 0.03,
+               "TestScenarioGun/head_step": 0.2, "TestScenarioGun/head_announces_huge_postprocessed": 0.02,
+               "TestHTTP2ScenarioGun/lying_length_postprocessed": 0.04, "TestHTTP2ScenarioGun/lying_length_unallocatable_postprocessed": 0.03,
+               "TestHTTP2ScenarioGun/head_announces_huge_postprocessed": 0.015,
+               "TestHTTPGun/mis_announce": 0.015, "TestHTTP2Gun/h2_mis_announce": 0.015,
+               "TestConnectProxy/connect_refused_length": 0.25, "TestConnectProxy/connect_refused_chunked": 0.15,
+               "TestConnectProxy/connect_refused_none": 0.15, "TestConnectProxy/connect_refused_body_truncated": 0.2,
+               "TestConnectProxy/connect_refused_body_truncated_conn_open": 0.13,
+               "TestConnectProxy/connect_refused_body_truncated_conn_open_no_close_header": 0.09,
+               "TestConnectProxy/connect_refused_complete_conn_open": 0.25, "TestConnectProxy/connect_keep_alive": 0.15,
+               # absolute counts (every case of the batch runs both guns)
+               "TestGRPCDefaultTimeout/default_timeout_grpc_gun": 1, "TestGRPCDefaultTimeout/default_timeout_grpc_scenario_gun": 1},
     "manifest": {
         "technique": "fault-injection property testing (rapid): generated misbehaving response histories against the real guns and engine",
         "text": ("Whatever the generated history, Engine.Run must return nil (no 'shoot panic', no component error), every attempted "
@@ -60,6 +90,11 @@ SPEC = {
                  "instance and keep-alives off (Go's transport then never retries silently). A request is counted as refused when the "
                  "target that went away has no record of it (a connection that sat in the backlog when the listener closed is reset, not "
                  "refused - same expectation: a failure sample). connect-ssl is exercised with a plain inner request (gun ssl off). "
+                 "TestConnectProxy: a refused CONNECT fails the dial of exactly one request and Go's transport does not repeat a failed dial, "
+                 "so at most as many requests as refused CONNECTs may miss the target; a standstill is judged without vf.LoadTolerant "
+                 "(no machine load explains 10 s without progress of a run that takes milliseconds). A proxy that accepts a CONNECT and "
+                 "sends no (complete) header block is NOT generated: pandora has no configurable bound for that wait. "
+                 "TestGRPCDefaultTimeout asserts only the upper bound (the call ends, 15 s + 10 s slack), not that the call lasted 15 s. "
                  "A crash of the worker process (a panic in a goroutine of net/http's transport cannot be recovered by the engine) is "
                  "attributed by the driver to the case being executed."),
     },
